@@ -121,6 +121,8 @@ impl Profile {
 
 #[derive(Clone, Copy, Debug)]
 struct St {
+    /// an explicit small `batch_mode` is in effect
+    small_batch: bool,
     repl: Repl,
     det: bool,
     bound: usize,
@@ -210,18 +212,18 @@ impl<'a, 'p> Gen<'a, 'p> {
         match self.ch.weighted(&w) {
             0 => {
                 let v = self.input(max);
-                let st = St { repl: Repl::One, det: true, bound: v.len(), loop_depth: 0, in_iterate: false };
+                let st = St { small_batch: false, repl: Repl::One, det: true, bound: v.len(), loop_depth: 0, in_iterate: false };
                 (SourceSpec::Iter(v), st)
             }
             1 => {
                 let v = self.input(max);
-                let st = St { repl: Repl::Unlimited, det: false, bound: v.len(), loop_depth: 0, in_iterate: false };
+                let st = St { small_batch: false, repl: Repl::Unlimited, det: false, bound: v.len(), loop_depth: 0, in_iterate: false };
                 (SourceSpec::Par(v), st)
             }
             _ => {
                 let a = self.ch.range(-30, 30);
                 let n = self.ch.range(0, max.min(600) as i64);
-                let st = St { repl: Repl::Unlimited, det: false, bound: n as usize, loop_depth: 0, in_iterate: false };
+                let st = St { small_batch: false, repl: Repl::Unlimited, det: false, bound: n as usize, loop_depth: 0, in_iterate: false };
                 (SourceSpec::Range(a, a + n), st)
             }
         }
@@ -357,6 +359,7 @@ impl<'a, 'p> Gen<'a, 'p> {
         };
         let init_acc = self.ch.range(-5, 5);
         let body_st = St {
+            small_batch: st.small_batch,
             repl: Repl::Unlimited,
             det: false,
             bound: st.bound,
@@ -386,6 +389,7 @@ impl<'a, 'p> Gen<'a, 'p> {
         (
             l,
             St {
+                small_batch: st.small_batch,
                 repl: Repl::Unlimited,
                 det: false,
                 bound: if iterate { out_bound } else { 1 },
@@ -408,14 +412,16 @@ impl<'a, 'p> Gen<'a, 'p> {
                 p.w_repart,
                 p.w_keyed_agg,
                 p.w_global_agg,
-                if st.det && !in_loop { p.w_window * 4 } else { 0 },
+                // count windows depend on the per-key arrival order, except with the `count`
+                // aggregator: that one is generated everywhere (also inside loop bodies)
+                if st.det && !in_loop { p.w_window * 4 } else { p.w_window },
                 if in_loop { 0 } else { p.w_fork },
                 p.w_diamond,
                 p.w_with,
                 p.w_route,
                 if st.loop_depth < 2 { p.w_replay } else { 0 },
                 if st.loop_depth == 0 { p.w_iterate } else { 0 },
-                if st.in_iterate { 0 } else { p.w_batch },
+                if st.in_iterate && std::env::var("VERIF_NO_F7_EXCLUSION").is_err() { 0 } else { p.w_batch },
                 if st.bound * 16 <= CAP { p.w_broadcast } else { 0 },
             ];
             match self.ch.weighted(&w) {
@@ -525,16 +531,21 @@ impl<'a, 'p> Gen<'a, 'p> {
                 4 => {
                     let n = self.ch.range(1, 6) as u8;
                     let s = self.ch.range(1, n as i64) as u8;
-                    let aggr = [
-                        WinAggr::Collect,
-                        WinAggr::Fold,
-                        WinAggr::Sum,
-                        WinAggr::Count,
-                        WinAggr::Min,
-                        WinAggr::Max,
-                        WinAggr::First,
-                        WinAggr::Last,
-                    ][self.ch.below(8)];
+                    let aggr = if st.det && !in_loop {
+                        [
+                            WinAggr::Collect,
+                            WinAggr::Fold,
+                            WinAggr::Sum,
+                            WinAggr::Count,
+                            WinAggr::Min,
+                            WinAggr::Max,
+                            WinAggr::First,
+                            WinAggr::Last,
+                        ][self.ch.below(8)]
+                    } else {
+                        self.ch.next();
+                        WinAggr::Count
+                    };
                     out.push(Stage::CountWindow { k: self.keys(), n, s, exact: self.ch.flag(1, 2), aggr });
                     st.repl = Repl::Unlimited;
                     st.det = false;
@@ -558,7 +569,8 @@ impl<'a, 'p> Gen<'a, 'p> {
                     out.push(Stage::Diamond { left: l, right: r, comb });
                 }
                 7 => {
-                    let (source, ost) = self.source(self.p.max_input.min(600));
+                    let (source, mut ost) = self.source(self.p.max_input.min(600));
+                    ost.in_iterate = st.in_iterate;
                     let saved = self.budget;
                     self.budget = self.ch.below(3).min(saved);
                     let (mut ostages, ost) = self.stages(ost);
@@ -593,6 +605,12 @@ impl<'a, 'p> Gen<'a, 'p> {
                 }
                 c @ (9 | 10) => {
                     let iterate = c == 10;
+                    if iterate && st.small_batch && std::env::var("VERIF_NO_F7_EXCLUSION").is_err() {
+                        // open known finding F7 (C04): keep the batches around `iterate` large
+                        self.steered += 1;
+                        out.push(Stage::Batch(BatchSpec::Fixed(1024)));
+                        st.small_batch = false;
+                    }
                     if st.repl != Repl::Unlimited {
                         // loops need an input with unlimited replication
                         out.push(Stage::Shuffle);
@@ -605,6 +623,7 @@ impl<'a, 'p> Gen<'a, 'p> {
                 }
                 11 => {
                     let b = self.batch();
+                    st.small_batch = b.size() < 256;
                     out.push(Stage::Batch(b));
                 }
                 _ => {
@@ -665,7 +684,7 @@ impl<'a, 'p> Gen<'a, 'p> {
         } else {
             None
         };
-        if has_iterate {
+        if has_iterate && std::env::var("VERIF_NO_F7_EXCLUSION").is_err() {
             // known finding F7 (cyclic back-pressure in `iterate`): keep batches large
             if let Some(b) = batch {
                 if b.size() < 256 {
